@@ -409,8 +409,18 @@ def main():
             try:
                 with warnings.catch_warnings():
                     warnings.simplefilter("ignore")
-                    for i in range(rd.n_chunks):
-                        toast.sample_layer_filtered(pio_c, smp.filter(i), smp.sampler(i), depth, coordsys=CS.PLANETARY, parallel=1)
+                    if ci % 2 == 0:
+                        # usage pattern B: ask for every chunk's (filter, sampler) pair FIRST, in a shuffled order, then use them — each
+                        # pair belongs to its own chunk, whatever was requested from the object afterwards
+                        idxs = list(range(rd.n_chunks))
+                        rng.shuffle(idxs)
+                        pairs = [(i, smp.filter(i), smp.sampler(i)) for i in idxs]
+                        pairs.sort(key=lambda t: t[0])
+                        for (_i, f_i, s_i) in pairs:
+                            toast.sample_layer_filtered(pio_c, f_i, s_i, depth, coordsys=CS.PLANETARY, parallel=1)
+                    else:
+                        for i in range(rd.n_chunks):
+                            toast.sample_layer_filtered(pio_c, smp.filter(i), smp.sampler(i), depth, coordsys=CS.PLANETARY, parallel=1)
                     toast.sample_layer(pio_w, samplers.plate_carree_planet_sampler(data), depth, coordsys=CS.PLANETARY, parallel=1)
             except Exception as e:  # noqa
                 h.violation("e2e:chunks", f"{gw}x{gh} map in {tw}x{th} chunks ({rd.n_chunks} chunks), depth {depth}: sampling raised {type(e).__name__}: {e}", input={"map": [gw, gh, tw, th]})
